@@ -26,6 +26,7 @@ type Run struct {
 	Pin      bool
 	NoReplay bool
 	Verbose  bool
+	Out      string
 	Start    time.Time
 	LoadSecs float64
 	eng      *Engine
@@ -193,7 +194,7 @@ func (r *Run) finish() {
 		recs = append(recs, oblRecord{o.Name, o.Kind, o.Text, o.Status, o.Solver, o.Ms, len(o.Parts)})
 		if o.Status == "unsat" {
 			discharged++
-			if len(samples) < 3 {
+			if len(samples) < 3 && len(o.Parts) > 0 {
 				samples = append(samples, map[string]interface{}{"obligation": o.Name, "spec": o.Text, "verdict": "unsat (discharged)", "solver": o.Solver, "ms": o.Ms,
 					"smt_head": head(o.Ctx.Script(o.Parts[0].NAssume, o.Parts[0].NegGoal, false), 1200)})
 			}
@@ -302,9 +303,9 @@ func (r *Run) finish() {
 			"integers":            "machine integers are exact bit-vectors (Go wrap-around); spec-level mi() values are 192-bit bit-vectors",
 		},
 	}
-	os.MkdirAll(filepath.Join(r.Verif, "evidence"), 0o755)
+	os.MkdirAll(filepath.Join(r.Out, "evidence"), 0o755)
 	b, _ := json.MarshalIndent(ev, "", " ")
-	os.WriteFile(filepath.Join(r.Verif, "evidence", r.Prop+".json"), b, 0o644)
+	os.WriteFile(filepath.Join(r.Out, "evidence", r.Prop+".json"), b, 0o644)
 
 	fmt.Printf("govc: property=%s tier=%s obligations=%d discharged=%d known=%d violations=%d undecided=%d stale=%d missing=%d vacuous=%d load=%.1fs solve=%.1fs\n",
 		r.Prop, r.Tier, len(r.Obls), discharged, len(knownSeen), violations, undecided, len(r.Stale), len(missing), len(vac), r.LoadSecs, solveSecs)
@@ -373,12 +374,15 @@ func (r *Run) addTables(prop string) {}
 func (r *Run) replayed(o *Oblig) bool { return false }
 
 func (r *Run) writeReplay(o *Oblig, where string) string {
-	dir := filepath.Join(r.Verif, "replays", r.Prop)
+	dir := filepath.Join(r.Out, "replays", r.Prop)
 	os.MkdirAll(dir, 0o755)
 	path := filepath.Join(dir, sanitize(o.Name)+".txt")
 	var b strings.Builder
 	fmt.Fprintf(&b, "property: %s\nfailed obligation: %s\nkind: %s\nspec: %s\nfunction: %s\nat: %s\nsolver verdict: %s (%s)\n\n", r.Prop, o.Name, o.Kind, o.Text, o.Func, where, o.Status, o.Solver)
-	fmt.Fprintf(&b, "---- solver output ----\n%s\n", o.Output)
+	if len(o.CexVals) > 0 {
+		fmt.Fprintf(&b, "---- counterexample (model values; in.* = inputs at entry, out.* = values at the failing return) ----\n%s\n", formatCex(o, o.CexVals))
+	}
+	fmt.Fprintf(&b, "---- solver output ----\n%s\n", head(o.Output, 20000))
 	if o.FailedPart < len(o.Parts) {
 		p := o.Parts[o.FailedPart]
 		fmt.Fprintf(&b, "\n---- query (SMT-LIB) ----\n%s\n", o.Ctx.Script(p.NAssume, p.NegGoal, true))
